@@ -54,17 +54,50 @@ def sample_norm(vn, func):
     return hits
 
 
+SITE_REFS = {r for r, _ in SITES}
+
+
 def analyse_site(chk, prog, ref, min_divs):
     f = prog.func(ref)
     chk.touch(f)
     state_writes = []
+    helper_calls = []
 
     def self_write(fa, attr, stmt, st):
         state_writes.append((attr, stmt, st["F"]))
-    fa = Facts(f, prog, unit_params=["q"], callbacks={"self_write": self_write}).analyse()
+
+    def make_on_call(depth):
+        def on_call(fa, node, st):
+            # a private helper of the same class receives the caller's value numbers and facts (one continuation per call site)
+            if depth < 2 and isinstance(node.func, ast.Attribute) and isinstance(node.func.value, ast.Name) and node.func.value.id == fa.self_name and f.cls is not None:
+                g = f.cls.methods.get(node.func.attr)
+                if g is None or g.ref in SITE_REFS or g is fa.func:
+                    return
+                params = [p for p in g.params[1:]]
+                seed = {p: "P:%s.%s" % (g.name, p) for p in params}
+                for p, a in zip(params, node.args):
+                    if not isinstance(a, ast.Starred):
+                        seed[p] = fa.vn(a, st)
+                for k in node.keywords:
+                    if k.arg in seed:
+                        seed[k.arg] = fa.vn(k.value, st)
+                helper_calls.append((g, seed, st["F"], depth + 1))
+        return on_call
+    fa = Facts(f, prog, unit_params=["q"], callbacks={"self_write": self_write, "call": make_on_call(0)}).analyse()
+    divisions = list(fa.divisions)
+    seen_h = set()
+    while helper_calls:
+        g, seed, facts_in, depth = helper_calls.pop()
+        key = (g.ref, tuple(sorted(seed.items())), facts_in)
+        if key in seen_h:
+            continue
+        seen_h.add(key)
+        chk.touch(g)
+        sub = Facts(g, prog, callbacks={"self_write": self_write, "call": make_on_call(depth)}, seed=seed, seed_facts=facts_in).analyse()
+        divisions.extend(sub.divisions)
     n = 0
     norms_used = set()
-    for d in fa.divisions:
+    for d in divisions:
         hits = sample_norm(d["vn"], f)
         if not hits:
             continue
